@@ -430,4 +430,4 @@ class DataFrame(Entity, DataSet):
     @metadata.deleter
     def metadata(self):
         if "metadata" in self._h5group:
-            self._h5group.delete("metadata")
+            self._h5group.delete("metadata", False)
